@@ -130,6 +130,9 @@ L:
 				break L
 			}
 			go func() {
+				// per connection: Listen's err is shared by every one of these goroutines,
+				// a failed handshake on one connection made the others close theirs
+				var err error
 				ctx, cancel := context.WithTimeout(n.ctx, 2*time.Second)
 				defer cancel()
 				c := newClient(n.id, fd, n.peersFeed, true)
